@@ -35,8 +35,12 @@ class FlagsH(Harness):
         fam = new_family(c, "X", base)
         child_invariants(c, fam)
         val = valuation(c, fam)
-        node = mk_atleast(c, repo, repo.plog.AtLeast, "self", fam, case["sign"], False)
-        return {"self": node, "fam": fam, "val": val}
+        # the node's own variable may be fixed ((0,0) / (1,1)) or free: the flags describe the node's inequality over its
+        # children's values, whatever its own variable says
+        from .assume import own_bounds
+        own = own_bounds(c)
+        node = mk_atleast(c, repo, repo.plog.AtLeast, "self", fam, case["sign"], False, own_bounds=own)
+        return {"self": node, "fam": fam, "val": val, "own": own}
 
     def run(self, c, st):
         n = st["self"]
@@ -61,7 +65,8 @@ class FlagsH(Harness):
 
     def concretise(self, case, k, model, c, st):
         kids = concretise_children(model, st["fam"], k, None, extra_int=("v",))
-        return {"value": _mv(model, st["self"].value.t), "sign": case["sign"], "children": kids}
+        return {"value": _mv(model, st["self"].value.t), "sign": case["sign"], "children": kids,
+                "own": [_mv(model, st["own"][0].t), _mv(model, st["own"][1].t)]}
 
     def replay(self, w):
         import puan.logic.plog as pg
@@ -69,7 +74,8 @@ class FlagsH(Harness):
             k["tv"] = k.get("v", k["lo"])
         kids, env = build_children(w["children"])
         # a compound child takes part with its own 0/1 variable: its valuation is its v (0 or 1)
-        node = pg.AtLeast(w["value"], kids, variable="A", sign=w["sign"])
+        import puan
+        node = pg.AtLeast(w["value"], kids, variable=puan.variable("A", tuple(w.get("own", (0, 1)))), sign=w["sign"])
         vals = [k.get("v", k["lo"]) for k in w["children"]]
         lhs = w["sign"] * sum(vals)
         eb = node.equation_bounds
